@@ -46,7 +46,7 @@ def mutable_objects(v, seen=None, path="result"):
     return seen
 
 
-@contract(None, ["C19"], [dict(getter=g) for g in GETTERS], name="predefined.fresh")
+@contract(None, ["C19", "C12", "C09", "C16"], [dict(getter=g) for g in GETTERS], name="predefined.fresh")
 class PredefinedFresh(Contract):
     """two calls of a predefined-model function return object graphs that share no mutable object (every
     distribution, dependence function, slicer, list and dict is allocated inside the call), so fitting a model
